@@ -19,7 +19,7 @@ EXTENDS C13_Routes, Json
 CONSTANTS Geoms,      \* set of subsystem-size tuples, e.g. {<<2,2>>, <<2,2,2>>}
           Amps,       \* set of amplitudes (Gaussian integers) for total dimension <= 4
           AmpsL,      \* set of amplitudes for larger total dimension
-          Pin,        \* TRUE: psi[1] is pinned to the first amplitude for total dimension > 4 (fewer states)
+          Pin,        \* number of leading amplitudes pinned to the first amplitude for total dimension > 4
           Mutant,     \* "none", or the name of a deliberately wrong variant (self-test: must violate)
           ExemptKnown,\* TRUE: the recorded finding (partial_trace_to_mpo conjugates the ket copy) is exempt
           Emit        \* TRUE: print the availability cases as JSON (run with one worker)
@@ -52,7 +52,7 @@ Init ==
   /\ dims \in Geoms
   /\ psi \in [1..Size(dims) -> IF Size(dims) <= 4 THEN Amps ELSE AmpsL]
   /\ Den(psi) > 0
-  /\ (Pin /\ Size(dims) > 4) => psi[1] = AmpSeq[1]
+  /\ Size(dims) > 4 => \A i \in 1..Pin : psi[i] = AmpSeq[1]
   /\ st = [ph |-> "init"]
 
 (* ---------------- requests through the route families ------------------- *)
@@ -120,11 +120,16 @@ Next == ViaRhoTensordot \/ ViaTraceGRho \/ ViaRhoG10 \/ ViaGRho10 \/ ViaGateOver
 Spec == Init /\ [][Next]_vars
 
 (* ---------------- invariants -------------------------------------------- *)
-\* the implementation-shaped value is the dense answer: numerator and (when asked) denominator
+\* the implementation-shaped value is the dense answer: numerator and denominator.  The reference is
+\* taken through the reduced state (linear cost); invariant Laws (LawTraceForm) shows on the initial
+\* state of the same psi that this form IS the statement <psi|Embed(G)|psi> for every tuple and operator.
 RouteGivesDense ==
   st.ph = "value" =>
-    /\ st.num = ExpNumStmt(psi, dims, st.sites, OpFor(SubDims(dims, st.sites), st.kind))
+    /\ st.num = ExpNum(RDM(psi, dims, st.sites), OpFor(SubDims(dims, st.sites), st.kind))
     /\ st.den = Den(psi)
+\* the same against the statement itself (quadratic cost: used in the small configurations)
+RouteGivesDenseStmt ==
+  st.ph = "value" => st.num = ExpNumStmt(psi, dims, st.sites, OpFor(SubDims(dims, st.sites), st.kind))
 
 RdmGivesDense ==
   st.ph = "rdm" =>
